@@ -92,7 +92,105 @@ theorem scanBracket_irrel (idc : Nat → Bool) : ∀ n1 n2 (inp : List Nat) (st 
             exact ih n2 _ _ (by omega) (by omega)
           · exact ih n2 _ _ (by omega) (by omega)
 
-attribute [local irreducible] scanEscape in
+theorem stripZeros_len : ∀ l : List Nat, (stripZeros l).length ≤ l.length := by
+  intro l; induction l with
+  | nil => simp [stripZeros]
+  | cons c cs ih => unfold stripZeros; split <;> simp <;> omega
+
+theorem passDigits_len : ∀ l : List Nat, (passDigits l).2.length ≤ l.length := by
+  intro l; induction l with
+  | nil => simp [passDigits]
+  | cons c cs ih => unfold passDigits; split <;> simp <;> omega
+
+theorem scanRepeat_len : ∀ f (inp : List Nat) (st : St), (scanRepeat f inp st).2.length ≤ inp.length := by
+  intro f; induction f with
+  | zero => intro inp st; simp [scanRepeat]
+  | succ f ih =>
+    intro inp st
+    have h1 := stripZeros_len inp
+    have h2 := passDigits_len (stripZeros inp)
+    unfold scanRepeat
+    cases hp : passDigits (stripZeros inp) with
+    | mk ds r =>
+      rw [hp] at h2
+      simp only at h2 ⊢
+      split
+      · rename_i r' 
+        have := ih r' (st.emit (ds ++ [44]))
+        simp at h2; omega
+      · simp only; omega
+
+def noDig (k : List Nat) : Prop := nextIsDigit k = false
+
+theorem stripZ_digits : ∀ n : List Nat, n.all isDigitC = true → (stripZ n).all isDigitC = true := by
+  intro n; induction n with
+  | nil => intro _; rfl
+  | cons c cs ih =>
+    intro h
+    cases cs with
+    | nil => simpa [stripZ] using h
+    | cons d ds =>
+      simp only [stripZ]
+      split
+      · exact ih (by simp at h ⊢; exact h.2)
+      · exact h
+
+theorem stripZeros_digits : ∀ (n k : List Nat), n ≠ [] → n.all isDigitC = true → noDig k → stripZeros (n ++ k) = stripZ n ++ k := by
+  intro n; induction n with
+  | nil => intro k h; exact absurd rfl h
+  | cons c cs ih =>
+    intro k _ hd hk
+    simp at hd
+    cases cs with
+    | nil =>
+      simp only [List.cons_append, List.nil_append, stripZ, stripZeros]
+      rw [if_neg (by intro h; rw [hk] at h; simp at h)]
+    | cons d ds =>
+      simp only [List.cons_append, stripZ, stripZeros]
+      have hdd : nextIsDigit (d :: (ds ++ k)) = true := by simp [nextIsDigit]; exact hd.2 d (by simp)
+      by_cases hc : c = 48
+      · rw [if_pos ⟨hc, hdd⟩, if_pos hc]
+        exact ih k (by simp) (by rw [List.all_eq_true]; exact hd.2) hk
+      · rw [if_neg (by intro h; exact hc h.1), if_neg hc]; simp
+
+theorem passDigits_digits : ∀ (n k : List Nat), n.all isDigitC = true → noDig k → passDigits (n ++ k) = (n, k) := by
+  intro n; induction n with
+  | nil =>
+    intro k _ hk
+    cases k with
+    | nil => rfl
+    | cons c cs => simp [noDig, nextIsDigit] at hk; simp [passDigits, hk]
+  | cons c cs ih =>
+    intro k hd hk
+    simp at hd
+    simp only [List.cons_append, passDigits, hd.1, if_true, ih k (by simpa using hd.2) hk]
+
+theorem stripZ_ne_nil : ∀ n : List Nat, n ≠ [] → stripZ n ≠ [] := by
+  intro n; induction n with
+  | nil => intro h; exact absurd rfl h
+  | cons c cs ih =>
+    intro _
+    cases cs with
+    | nil => simp [stripZ]
+    | cons d ds => simp only [stripZ]; split; exact ih (by simp); simp
+
+theorem scanBracket0_len (idc : Nat → Bool) (n : Nat) (inp : List Nat) (st : St) :
+    (scanBracket0 idc n inp st).2.length ≤ inp.length := by
+  unfold scanBracket0
+  split
+  · simp
+  · simp; omega
+  · exact scanBracket_len idc n inp st
+
+theorem scanBracket0_irrel (idc : Nat → Bool) (n1 n2 : Nat) (inp : List Nat) (st : St)
+    (h1 : inp.length < n1) (h2 : inp.length < n2) : scanBracket0 idc n1 inp st = scanBracket0 idc n2 inp st := by
+  unfold scanBracket0
+  split
+  · rfl
+  · rfl
+  · exact scanBracket_irrel idc n1 n2 inp st h1 h2
+
+attribute [local irreducible] scanEscape scanBracket0 scanRepeat in
 theorem loop_len (idc : Nat → Bool) : ∀ n top (inp : List Nat) (st : St),
     (loop idc top n inp st).2.length ≤ inp.length := by
   intro n; induction n with
@@ -113,16 +211,20 @@ theorem loop_len (idc : Nat → Bool) : ∀ n top (inp : List Nat) (st : St),
           have := ih top (loop idc false n cs (lookCheck cs (st.emit [40]))).2 (loop idc false n cs (lookCheck cs (st.emit [40]))).1
           omega
         · split
-          · have h := scanBracket_len idc n cs (st.emit [91])
-            have := ih top (scanBracket idc n cs (st.emit [91])).2 (scanBracket idc n cs (st.emit [91])).1
+          · have h := scanBracket0_len idc n cs (st.emit [91])
+            have := ih top (scanBracket0 idc n cs (st.emit [91])).2 (scanBracket0 idc n cs (st.emit [91])).1
             omega
           · split
             · split
               · have := ih true cs (st.bad.emit [41]); omega
               · simp
-            · have := ih top cs (st.emit [c]); omega
+            · split
+              · have h := scanRepeat_len (cs.length + 1) cs (st.emit [123])
+                have := ih top (scanRepeat (cs.length + 1) cs (st.emit [123])).2 (scanRepeat (cs.length + 1) cs (st.emit [123])).1
+                omega
+              · have := ih top cs (st.emit [c]); omega
 
-attribute [local irreducible] scanEscape in
+attribute [local irreducible] scanEscape scanBracket0 scanRepeat in
 theorem loop_irrel (idc : Nat → Bool) : ∀ n1 n2 top (inp : List Nat) (st : St),
     inp.length < n1 → inp.length < n2 → loop idc top n1 inp st = loop idc top n2 inp st := by
   intro n1; induction n1 with
@@ -146,15 +248,18 @@ theorem loop_irrel (idc : Nat → Bool) : ∀ n1 n2 top (inp : List Nat) (st : S
             rw [← e]
             exact ih n2 _ _ _ (by omega) (by omega)
           · split
-            · have e := scanBracket_irrel idc n1 n2 cs (st.emit [91]) (by omega) (by omega)
-              have h := scanBracket_len idc n1 cs (st.emit [91])
+            · have e := scanBracket0_irrel idc n1 n2 cs (st.emit [91]) (by omega) (by omega)
+              have h := scanBracket0_len idc n1 cs (st.emit [91])
               rw [← e]
               exact ih n2 _ _ _ (by omega) (by omega)
             · split
               · split
                 · exact ih n2 _ _ _ (by omega) (by omega)
                 · rfl
-              · exact ih n2 _ _ _ (by omega) (by omega)
+              · split
+                · have h := scanRepeat_len (cs.length + 1) cs (st.emit [123])
+                  exact ih n2 _ _ _ (by omega) (by omega)
+                · exact ih n2 _ _ _ (by omega) (by omega)
 
 /-! ## part 2 -/
 
@@ -339,9 +444,9 @@ def adv (st : St) (o : List Nat) (e : Bool) : St := { out := st.out ++ o, err :=
 theorem adv_nil (st : St) : adv st [] false = st := by
   cases st; simp [adv]
 
-def plain (c : Nat) : Bool := c ≠ 92 ∧ c ≠ 40 ∧ c ≠ 91 ∧ c ≠ 41
+def plain (c : Nat) : Bool := c ≠ 92 ∧ c ≠ 40 ∧ c ≠ 91 ∧ c ≠ 41 ∧ c ≠ 123
 
-attribute [local irreducible] scanEscape in
+attribute [local irreducible] scanEscape scanRepeat in
 theorem loop_plain1 (idc : Nat → Bool) (top : Bool) (n c : Nat) (k : List Nat) (st : St) (hc : plain c = true)
     (hn : (c :: k).length < n) : loop idc top n (c :: k) st = loop idc top n k (adv st [c] false) := by
   simp [plain] at hc
@@ -350,7 +455,7 @@ theorem loop_plain1 (idc : Nat → Bool) (top : Bool) (n c : Nat) (k : List Nat)
   | succ m =>
     simp only [List.length_cons] at hn
     conv => lhs; unfold loop
-    rw [if_neg hc.1, if_neg hc.2.1, if_neg hc.2.2.1, if_neg hc.2.2.2]
+    rw [if_neg hc.1, if_neg hc.2.1, if_neg hc.2.2.1, if_neg hc.2.2.2.1, if_neg hc.2.2.2.2]
     rw [emit_adv]
     exact loop_irrel idc m (m + 1) top k _ (by omega) (by omega)
 
@@ -366,7 +471,7 @@ theorem loop_plain (idc : Nat → Bool) (top : Bool) : ∀ (cs : List Nat) (n : 
     rw [ih n k _ (by simpa using hc.2) (by simp at hn ⊢; omega)]
     simp
 
-attribute [local irreducible] scanEscape in
+attribute [local irreducible] scanEscape scanRepeat in
 theorem loop_esc (idc : Nat → Bool) (top : Bool) (n : Nat) (body : List Nat) (st st' : St) (rest : List Nat)
     (h : scanEscape idc false body st = (st', rest)) (hn : (92 :: body).length < n) :
     loop idc top n (92 :: body) st = loop idc top n rest st' := by
@@ -380,7 +485,7 @@ theorem loop_esc (idc : Nat → Bool) (top : Bool) (n : Nat) (body : List Nat) (
     rw [h] at this
     exact loop_irrel idc m (m + 1) top rest _ (by simp at this; omega) (by simp at this; omega)
 
-attribute [local irreducible] scanEscape in
+attribute [local irreducible] scanEscape scanRepeat in
 theorem loop_group (idc : Nat → Bool) (top : Bool) (n : Nat) (inner : List Nat) (st st' : St) (rest : List Nat)
     (h : loop idc false n inner (lookCheck inner (adv st [40] false)) = (st', rest)) (hn : (40 :: inner).length < n) :
     loop idc top n (40 :: inner) st = loop idc top n rest st' := by
@@ -395,9 +500,9 @@ theorem loop_group (idc : Nat → Bool) (top : Bool) (n : Nat) (inner : List Nat
     rw [h] at this
     exact loop_irrel idc m (m + 1) top rest _ (by simp at this; omega) (by simp at this; omega)
 
-attribute [local irreducible] scanEscape in
+attribute [local irreducible] scanEscape scanBracket0 scanRepeat in
 theorem loop_bracket (idc : Nat → Bool) (top : Bool) (n : Nat) (inner : List Nat) (st st' : St) (rest : List Nat)
-    (h : scanBracket idc n inner (adv st [91] false) = (st', rest)) (hn : (91 :: inner).length < n) :
+    (h : scanBracket0 idc n inner (adv st [91] false) = (st', rest)) (hn : (91 :: inner).length < n) :
     loop idc top n (91 :: inner) st = loop idc top n rest st' := by
   cases n with
   | zero => simp at hn
@@ -405,8 +510,8 @@ theorem loop_bracket (idc : Nat → Bool) (top : Bool) (n : Nat) (inner : List N
     simp only [List.length_cons] at hn
     conv => lhs; unfold loop
     rw [if_neg (by decide), if_neg (by decide), if_pos rfl, emit_adv]
-    rw [scanBracket_irrel idc m (m + 1) inner _ (by omega) (by omega), h]
-    have := scanBracket_len idc (m + 1) inner (adv st [91] false)
+    rw [scanBracket0_irrel idc m (m + 1) inner _ (by omega) (by omega), h]
+    have := scanBracket0_len idc (m + 1) inner (adv st [91] false)
     rw [h] at this
     exact loop_irrel idc m (m + 1) top rest _ (by simp at this; omega) (by simp at this; omega)
 
@@ -519,6 +624,23 @@ theorem br_items (idc : Nat → Bool) : ∀ (is : List CItem), itemsWf is = true
 
 macro "len_omega" : tactic => `(tactic| (simp only [List.length_append, List.length_cons, List.length_nil] at *; omega))
 
+theorem atomc_head (a : CAtom) (h : a.wf = true) : ∃ c t, a.es5 = c :: t ∧ c ≠ 93 ∧ c ≠ 94 := by
+  cases a with
+  | ch sp =>
+    cases sp with
+    | lit c => simp [CAtom.wf, CharSp.wfIn] at h; exact ⟨c, [], rfl, h.2.1, h.2.2.2.1⟩
+    | _ => exact ⟨92, _, rfl, by decide, by decide⟩
+  | bs => exact ⟨92, _, rfl, by decide, by decide⟩
+  | cls k => exact ⟨92, _, rfl, by decide, by decide⟩
+
+theorem item_head (i : CItem) (h : i.wf = true) : ∃ c t, i.es5 = c :: t ∧ c ≠ 93 ∧ c ≠ 94 := by
+  cases i with
+  | one a => exact atomc_head a (by simpa [CItem.wf] using h)
+  | range a b =>
+    simp [CItem.wf] at h
+    obtain ⟨c, t, hc, hne⟩ := atomc_head a h.1
+    exact ⟨c, t ++ 45 :: b.es5, by simp [CItem.es5, hc], hne⟩
+
 def headOk (l : List Nat) : Prop := l.head? ≠ some 63
 
 theorem lookCheck_headOk (l : List Nat) (st : St) (h : headOk l) : lookCheck l st = st := by
@@ -563,13 +685,108 @@ theorem pr_head : ∀ (r : Re), r.wf = true → ∀ k, headOk k → headOk (prin
     exact atom_head r hwf.1 hwf.2.1 _
   | _ => intro _ k _; simp [printES5, headOk]
 
-theorem quant_plain (q : Quant) (hq : q.wf = true) (l : Bool) : (q.text ++ lazyText l).all plain = true := by
-  have digp : ∀ x, isDigitC x = true → ¬x = 92 ∧ ¬x = 40 ∧ ¬x = 91 ∧ ¬x = 41 := by
-    intro x hx; simp [isDigitC] at hx; omega
-  cases q <;> cases l <;> simp [Quant.text, lazyText, plain, Quant.wf, digitsWf] at hq ⊢
-  all_goals (first
-    | (intro x hx; exact digp x (hq.2 x hx))
-    | exact ⟨fun x hx => digp x (hq.1.2 x hx), fun x hx => digp x (hq.2.2 x hx)⟩)
+theorem noDig_125 (k : List Nat) : noDig (125 :: k) := by simp [noDig, nextIsDigit, isDigitC]
+theorem noDig_44 (k : List Nat) : noDig (44 :: k) := by simp [noDig, nextIsDigit, isDigitC]
+
+theorem pass_strip (n k : List Nat) (hn : digitsWf n = true) (hk : noDig k) :
+    passDigits (stripZeros (n ++ k)) = (stripZ n, k) := by
+  simp [digitsWf] at hn
+  rw [stripZeros_digits n k hn.1 (by rw [List.all_eq_true]; exact hn.2) hk]
+  exact passDigits_digits _ k (stripZ_digits n (by rw [List.all_eq_true]; exact hn.2)) hk
+
+theorem pass_strip_125 (k : List Nat) : passDigits (stripZeros (125 :: k)) = ([], 125 :: k) := by
+  simp [stripZeros, passDigits, isDigitC]
+
+theorem scanRepeat_rep (n k : List Nat) (hn : digitsWf n = true) (st : St) (f : Nat) :
+    scanRepeat (f + 1) (n ++ 125 :: k) st = (adv st (stripZ n) false, 125 :: k) := by
+  unfold scanRepeat
+  rw [pass_strip n _ hn (noDig_125 k)]
+  simp
+
+theorem scanRepeat_from (n k : List Nat) (hn : digitsWf n = true) (st : St) (f : Nat) :
+    scanRepeat (f + 2) (n ++ 44 :: 125 :: k) st = (adv st (stripZ n ++ [44]) false, 125 :: k) := by
+  unfold scanRepeat
+  rw [pass_strip n _ hn (noDig_44 _)]
+  simp only
+  unfold scanRepeat
+  rw [pass_strip_125]
+  simp
+
+theorem scanRepeat_range (n mm k : List Nat) (hn : digitsWf n = true) (hm : digitsWf mm = true) (st : St) (f : Nat) :
+    scanRepeat (f + 2) (n ++ 44 :: (mm ++ 125 :: k)) st = (adv st (stripZ n ++ 44 :: stripZ mm) false, 125 :: k) := by
+  unfold scanRepeat
+  rw [pass_strip n _ hn (noDig_44 _)]
+  simp only
+  rw [scanRepeat_rep mm k hm]
+  simp
+
+attribute [local irreducible] scanEscape scanRepeat in
+theorem loop_brace (idc : Nat → Bool) (top : Bool) (n : Nat) (inner : List Nat) (st st' : St) (rest : List Nat)
+    (h : scanRepeat (inner.length + 1) inner (adv st [123] false) = (st', rest)) (hn : (123 :: inner).length < n) :
+    loop idc top n (123 :: inner) st = loop idc top n rest st' := by
+  cases n with
+  | zero => simp at hn
+  | succ m =>
+    simp only [List.length_cons] at hn
+    conv => lhs; unfold loop
+    rw [if_neg (by decide), if_neg (by decide), if_neg (by decide), if_neg (by decide), if_pos rfl, emit_adv, h]
+    have := scanRepeat_len (inner.length + 1) inner (adv st [123] false)
+    rw [h] at this
+    exact loop_irrel idc m (m + 1) top rest _ (by simp at this; omega) (by simp at this; omega)
+
+theorem lazy_plain (l : Bool) : (lazyText l).all plain = true := by cases l <;> simp [lazyText, plain]
+
+/-- the scanner on a quantifier: the counts lose their leading zeros, everything else is copied -/
+theorem loop_quant (idc : Nat → Bool) (top : Bool) (q : Quant) (hq : q.wf = true) (l : Bool) (n : Nat) (k : List Nat) (st : St)
+    (hn : (q.text ++ (lazyText l ++ k)).length < n) :
+    loop idc top n (q.text ++ (lazyText l ++ k)) st = loop idc top n k (adv st (q.textGo ++ lazyText l) false) := by
+  have tail : ∀ (st0 : St) (pre : List Nat), (125 :: (lazyText l ++ k)).length < n →
+      loop idc top n (125 :: (lazyText l ++ k)) (adv st0 pre false) = loop idc top n k (adv st0 (pre ++ 125 :: lazyText l) false) := by
+    intro st0 pre h
+    rw [loop_plain1 idc top n 125 _ _ (by decide) h]
+    rw [loop_plain idc top (lazyText l) n k _ (lazy_plain l) (by simp at h ⊢; omega)]
+    simp
+  cases q with
+  | star =>
+    simp only [Quant.text, Quant.textGo, List.cons_append, List.nil_append] at hn ⊢
+    rw [loop_plain1 idc top n 42 _ _ (by decide) hn, loop_plain idc top (lazyText l) n k _ (lazy_plain l) (by simp at hn ⊢; omega)]
+    simp
+  | plus =>
+    simp only [Quant.text, Quant.textGo, List.cons_append, List.nil_append] at hn ⊢
+    rw [loop_plain1 idc top n 43 _ _ (by decide) hn, loop_plain idc top (lazyText l) n k _ (lazy_plain l) (by simp at hn ⊢; omega)]
+    simp
+  | opt =>
+    simp only [Quant.text, Quant.textGo, List.cons_append, List.nil_append] at hn ⊢
+    rw [loop_plain1 idc top n 63 _ _ (by decide) hn, loop_plain idc top (lazyText l) n k _ (lazy_plain l) (by simp at hn ⊢; omega)]
+    simp
+  | rep c =>
+    simp only [Quant.wf] at hq
+    simp only [Quant.text, Quant.textGo, List.cons_append, List.append_assoc, List.nil_append] at hn ⊢
+    have hsr := scanRepeat_rep c (lazyText l ++ k) hq (adv st [123] false) (c ++ 125 :: (lazyText l ++ k)).length
+    rw [loop_brace idc top n _ st _ _ hsr hn]
+    simp only [adv_adv, Bool.or_false]
+    rw [tail st _ (by simp at hn ⊢; omega)]
+    simp
+  | repFrom c =>
+    simp only [Quant.wf] at hq
+    simp only [Quant.text, Quant.textGo, List.cons_append, List.append_assoc, List.nil_append] at hn ⊢
+    have hlen : (c ++ 44 :: 125 :: (lazyText l ++ k)).length + 1 = ((c ++ 44 :: 125 :: (lazyText l ++ k)).length - 1) + 2 := by simp; omega
+    have hsr := scanRepeat_from c (lazyText l ++ k) hq (adv st [123] false) ((c ++ 44 :: 125 :: (lazyText l ++ k)).length - 1)
+    rw [← hlen] at hsr
+    rw [loop_brace idc top n _ st _ _ hsr hn]
+    simp only [adv_adv, Bool.or_false]
+    rw [tail st _ (by simp at hn ⊢; omega)]
+    simp
+  | repRange c d =>
+    simp only [Quant.wf, Bool.and_eq_true, decide_eq_true_eq] at hq
+    simp only [Quant.text, Quant.textGo, List.cons_append, List.append_assoc, List.nil_append] at hn ⊢
+    have hlen : (c ++ 44 :: (d ++ 125 :: (lazyText l ++ k))).length + 1 = ((c ++ 44 :: (d ++ 125 :: (lazyText l ++ k))).length - 1) + 2 := by simp; omega
+    have hsr := scanRepeat_range c d (lazyText l ++ k) hq.1 hq.2 (adv st [123] false) ((c ++ 44 :: (d ++ 125 :: (lazyText l ++ k))).length - 1)
+    rw [← hlen] at hsr
+    rw [loop_brace idc top n _ st _ _ hsr hn]
+    simp only [adv_adv, Bool.or_false]
+    rw [tail st _ (by simp at hn ⊢; omega)]
+    simp
 
 theorem quant_noDigit (q : Quant) (l : Bool) (k : List Nat) : noDigitStart (q.text ++ lazyText l ++ k) = true := by
   cases q <;> simp [Quant.text, noDigitStart, isDigitC]
@@ -628,28 +845,41 @@ theorem loop_print (idc : Nat → Bool) : ∀ (r : Re), r.wf = true → ∀ (top
   | set neg items =>
     intro hwf top n k st hn _
     simp [Re.wf] at hwf
-    have key : scanBracket idc n ((if neg then [94] else []) ++ itemsES5 items ++ [93] ++ k) (adv st [91] false)
-        = (adv st (91 :: (if neg then [94] else []) ++ itemsGo items ++ [93]) false, k) := by
-      cases neg with
-      | false =>
-        have hlen : (printES5 (.set false items) ++ k).length = 1 + (itemsES5 items ++ 93 :: k).length := by
-          simp [printES5]; omega
-        simp only [Bool.false_eq_true, if_false, List.nil_append, List.append_assoc, List.cons_append]
-        rw [br_items idc items hwf.2 n _ _ (by omega)]
-        rw [br_close idc n k _ (by omega)]
-        simp
-      | true =>
-        have hlen : (printES5 (.set true items) ++ k).length = 2 + (itemsES5 items ++ 93 :: k).length := by
-          simp [printES5]; omega
-        simp only [if_true, List.cons_append, List.nil_append, List.append_assoc]
-        rw [br_plain1 idc n 94 _ _ (by decide) (by decide) (by simp only [List.length_cons]; omega)]
-        rw [br_items idc items hwf.2 n _ _ (by omega)]
-        rw [br_close idc n k _ (by omega)]
-        simp
-    have hlen2 : (91 :: ((if neg then [94] else []) ++ itemsES5 items ++ [93] ++ k)).length = (printES5 (.set neg items) ++ k).length := by
-      cases neg <;> simp [printES5]
-    have := loop_bracket idc top n _ st _ k key (by omega)
-    simpa [printES5, printGo, Re.unsupported] using this
+    cases items with
+    | nil =>
+      have key : scanBracket0 idc n ((if neg then [94] else []) ++ [93] ++ k) (adv st [91] false)
+          = (adv st (91 :: (if neg then [] else [94]) ++ fullRange) false, k) := by
+        cases neg <;> simp [scanBracket0, fullRange]
+      have := loop_bracket idc top n _ st _ k key (by cases neg <;> simp [printES5, itemsES5] at hn ⊢ <;> omega)
+      simpa [printES5, printGo, Re.unsupported, itemsES5, fullRange] using this
+    | cons it its =>
+      obtain ⟨c0, t0, hc0, hne, hne2⟩ := item_head it (by simp [itemsWf] at hwf; exact hwf.1)
+      have hsb : scanBracket0 idc n ((if neg then [94] else []) ++ itemsES5 (it :: its) ++ [93] ++ k) (adv st [91] false)
+          = scanBracket idc n ((if neg then [94] else []) ++ itemsES5 (it :: its) ++ [93] ++ k) (adv st [91] false) := by
+        cases neg <;> simp only [itemsES5, hc0] <;> unfold scanBracket0 <;> split <;> simp_all
+      have key : scanBracket0 idc n ((if neg then [94] else []) ++ itemsES5 (it :: its) ++ [93] ++ k) (adv st [91] false)
+          = (adv st (91 :: (if neg then [94] else []) ++ itemsGo (it :: its) ++ [93]) false, k) := by
+        rw [hsb]
+        cases neg with
+        | false =>
+          have hlen : (printES5 (.set false (it :: its)) ++ k).length = 1 + (itemsES5 (it :: its) ++ 93 :: k).length := by
+            simp [printES5]; omega
+          simp only [Bool.false_eq_true, if_false, List.nil_append, List.append_assoc, List.cons_append]
+          rw [br_items idc (it :: its) hwf n _ _ (by omega)]
+          rw [br_close idc n k _ (by omega)]
+          simp
+        | true =>
+          have hlen : (printES5 (.set true (it :: its)) ++ k).length = 2 + (itemsES5 (it :: its) ++ 93 :: k).length := by
+            simp [printES5]; omega
+          simp only [if_true, List.cons_append, List.nil_append, List.append_assoc]
+          rw [br_plain1 idc n 94 _ _ (by decide) (by decide) (by simp only [List.length_cons]; omega)]
+          rw [br_items idc (it :: its) hwf n _ _ (by omega)]
+          rw [br_close idc n k _ (by omega)]
+          simp
+      have hlen2 : (91 :: ((if neg then [94] else []) ++ itemsES5 (it :: its) ++ [93] ++ k)).length = (printES5 (.set neg (it :: its)) ++ k).length := by
+        cases neg <;> simp [printES5]
+      have := loop_bracket idc top n _ st _ k key (by omega)
+      simpa [printES5, printGo, Re.unsupported] using this
   | group r ih =>
     intro hwf top n k st hn _
     simp [Re.wf] at hwf
@@ -712,6 +942,6 @@ theorem loop_print (idc : Nat → Bool) : ∀ (r : Re), r.wf = true → ∀ (top
     simp [Re.wf] at hwf
     simp only [printES5, printGo, List.append_assoc] at hn ⊢
     rw [ih hwf.1 top n _ st hn (fun _ => by simpa using quant_noDigit q l k)]
-    rw [← List.append_assoc, loop_plain idc top _ n k _ (quant_plain q hwf.2.2 l) (by simp at hn ⊢; omega)]
+    rw [loop_quant idc top q hwf.2.2 l n k _ (by simp at hn ⊢; omega)]
     simp [Re.unsupported]
 end OttoVerif.C10.Lem
